@@ -81,6 +81,8 @@ macro_rules! run_chain {
                 match f.as_str() {
                     "oneway" => c.set_oneway(true),
                     "more" => c.set_more(true),
+                    // both flags: oneway wins, nothing is owed
+                    "both" => c.set_more(true).set_oneway(true),
                     _ => c,
                 }
             })
